@@ -258,3 +258,12 @@ func init() {
 	})
 }
 
+
+func init() {
+	register("DBGQ", "debug: sorts", func(c *Ctx, r *Report) {
+		ruleSortInventory(c, r, "DBGQ")
+		for _, o := range r.Obls {
+			fmt.Println("SORT", o.Sites, o.Key)
+		}
+	})
+}
